@@ -187,10 +187,14 @@ def parse_assumptions(out):
 # ----------------------------------------------------------------------------
 def coq_str(s):
     """Python str (code points, may contain surrogates) -> Gallina list N literal."""
+    if not s:
+        return "(@nil N)"      # an untyped [] cannot be inferred when every case of a shard has it
     return "[" + ";".join(str(ord(c)) for c in s) + "]"
 
 
 def coq_bytes(b):
+    if not b:
+        return "(@nil N)"
     return "[" + ";".join(str(x) for x in b) + "]"
 
 
